@@ -61,3 +61,13 @@ Theorem C05_bare_with_reason_names_no_code : forall ws r,
   all_ws ws -> no_nl r -> codes_of_text (ws ++ DASH :: DASH :: r) = [].
 Proof. exact bare_with_reason. Qed.
 Print Assumptions C05_bare_with_reason_names_no_code.
+
+From V Require Import Pipeline.Codes.
+(* known finding (literal reading of the property), as a theorem about the faithful model: the FIRST
+   file directive wins, so a bare directive that follows a coded one does not silence the file *)
+Theorem C05_bare_after_coded_not_silenced :
+  exists o f rd c d,
+    In c (f_leading f) /\ parse_dir (file_word o) c = Some d /\ dir_codes d = [] /\
+    lint_inner o id_oracle f rd NoCallback <> [].
+Proof. exact bare_after_coded_not_silenced. Qed.
+Print Assumptions C05_bare_after_coded_not_silenced.
